@@ -1,5 +1,5 @@
 CONSTANTS UdpOpensTcp = FALSE
 INIT Init
 NEXT Next
-INVARIANTS DefaultDeny OnlyAuthenticated TcpIsTcp UdpIsUdp IsolationHolds NoSpoofing
+INVARIANTS DefaultDeny OnlyAuthenticated TcpIsTcp UdpIsUdp IsolationHolds NoSpoofing NoFriendsNoEntry
 ACTION_CONSTRAINT DumpEdge
